@@ -552,18 +552,19 @@ mutant("c12-event-chain-swallows-rejection", "C12", "C12-D1", "middleware.go",
 		}""")
 mutant("c12-doconnect-before-chain", "C12", "C12-D2", "namespace.go",
        """	err = n.runMiddlewares(socket, handshake)
-	if err != nil {
-		return nil, err
-	}
-
-	return socket, n.doConnect(socket)""",
+	if err != nil {""",
        """	n.doConnect(socket)
 	err = n.runMiddlewares(socket, handshake)
-	if err != nil {
-		return nil, err
+	if err != nil {""")
+MUTANTS[-1]["then"] = ("""		return nil, err
 	}
 
-	return socket, nil""")
+	return socket, n.doConnect(socket)
+}""", """		return nil, err
+	}
+
+	return socket, nil
+}""")
 mutant("c12-skip-for-any-recovery-config", "C12", "C12-D2", "namespace.go",
        "	if n.server.connectionStateRecovery.Enabled && !n.server.connectionStateRecovery.UseMiddlewares && socket.Recovered() {",
        "	if n.server.connectionStateRecovery.Enabled && socket.Recovered() {")
@@ -2221,9 +2222,16 @@ mutant("c15-f37-buffer-decision-outside-the-mutex", "C15", "C15-D6", "client_soc
 			return s.callEvent(handler, header, values, sendAck)
 		}
 """, "")
-mutant("c03-f38-deferred-ack-marked-sent", "C03", "C03-D9", "client_socket.go",
-       "		if event.header.ID != nil && !hasAckFunc {",
-       "		if _ = hasAckFunc; event.header.ID != nil {")
+mutant("c03-f42-empty-ack-made-up-for-the-handler", "C03", "C03-D9", "client_socket.go",
+       """		s.callEvent(event.handler, event.header, event.values, sendAck)
+	}
+	s.receiveBuffer = nil""",
+       """		hasAckFunc := s.callEvent(event.handler, event.header, event.values, sendAck)
+		if event.header.ID != nil && !hasAckFunc {
+			s.sendAckPacket(*event.header.ID, nil)
+		}
+	}
+	s.receiveBuffer = nil""")
 mutant("c03-f39-no-head-guard", "C03", "C03-D10", "client_packet_queue.go",
        """		if len(pq.queuedPackets) == 0 || pq.queuedPackets[0] != packet {""",
        """		if len(pq.queuedPackets) == 0 {""")
@@ -2314,3 +2322,24 @@ mutant("c16-fanout-under-nondeferred-lock-can-panic", "C16", "C16-D2", "adapter/
 		return
 	}
 	a.inMemoryAdapter.Broadcast(header, v, opts)""")
+
+# F41 / F43 / F44 (reverting the repairs)
+mutant("c13-f41-empty-packets-not-counted", "C13", "C13-D3", "engine.io/client_socket.go",
+       """			payloadSize += packet.EncodedLen(false)
+			if i > 0""",
+       """			if len(packet.Data) > 0 {
+				payloadSize += packet.EncodedLen(false)
+			}
+			if i > 0""")
+mutant("c18-f43-sub-events-registered-on-every-connect", "C18", "C18-D10", "client_socket.go",
+       """	if s.subDeregister != nil {
+		// Already registered (`Connect` is called again before the socket is connected).
+		// Registering them once more would make every open, error and close of the manager count twice.
+		s.activeMu.Unlock()
+		return
+	}
+""", "")
+mutant("c12-f44-refused-socket-keeps-its-rooms", "C12", "C12-D7", "namespace.go",
+       """		socket.leaveAll()
+		return nil, err""",
+       """		return nil, err""")
